@@ -75,7 +75,7 @@ def session(kind, shape, step, scb, bystander=False, cb_style="method"):
             if shape in ("fault_reconnect", "callbacks_replaced") and conn.id == 0:
                 def fault():
                     if not conn.lost and not conn.closing:
-                        conn.reset(simgw.serial_loss_exception() if kind == "waveshare" else ConnectionResetError(104, "reset"))
+                        conn.reset(simgw.link_loss(kind))
                 loop.call_later(0.12, fault)
         sim.on_accept.append(on_accept)
 
